@@ -78,7 +78,7 @@ def gen_db(rng, isa):
     names = ["k%s%s" % (a, b) for a in "acdeghkmnpr" for b in "acdeghkmnpr"]
     rng.shuffle(names)
     for fi in range(rng.randint(4, 9)):
-        n = rng.choice([1, 2, 2, 2, 3, 3, 4])
+        n = rng.choice([0, 1, 2, 2, 2, 3, 3, 4])     # 0: an instruction that acts only through its hidden operands (cltq, vzeroupper, cld)
         kinds = [rng.choice(kinds_pool) for _ in range(n)]
         if kinds.count("mem") > 1:
             kinds = [k if k != "mem" or i == kinds.index("mem") else kinds_pool[0] for i, k in enumerate(kinds)]
